@@ -35,21 +35,6 @@ private theorem cot_two_arctan_exp (η : ℝ) :
   have he : 0 < exp η := exp_pos _
   field_simp
 
-private theorem cot_arccos {ρ z m : ℝ} (hρ : 0 < ρ) (hm : m = ρ ^ 2 + z ^ 2) :
-    cos (arccos (z / sqrt m)) / sin (arccos (z / sqrt m)) = z / ρ := by
-  have hmpos : 0 < m := by rw [hm]; positivity
-  have hs : 0 < sqrt m := sqrt_pos.mpr hmpos
-  have hsq : sqrt m ^ 2 = m := sq_sqrt hmpos.le
-  have hz : z ^ 2 ≤ sqrt m ^ 2 := by rw [hsq, hm]; nlinarith [sq_nonneg ρ]
-  have habs : |z| ≤ sqrt m := abs_le_of_sq_le_sq' hz hs.le |> abs_le.mpr
-  have h1 : -1 ≤ z / sqrt m := by rw [le_div_iff₀ hs]; linarith [(abs_le.mp habs).1]
-  have h2 : z / sqrt m ≤ 1 := by rw [div_le_iff₀ hs]; linarith [(abs_le.mp habs).2]
-  rw [cos_arccos h1 h2, sin_arccos]
-  have : 1 - (z / sqrt m) ^ 2 = (ρ / sqrt m) ^ 2 := by
-    field_simp; rw [hsq, hm]; ring
-  rw [this, sqrt_sq (by positivity)]
-  field_simp
-
 private theorem inv_tan_mul (a b : ℝ) : 1 / (tan a * tan b) = (cos a / sin a) * (cos b / sin b) := by
   rw [tan_eq_sin_div_cos, tan_eq_sin_div_cos, one_div, mul_inv, inv_div, inv_div]
 
@@ -63,23 +48,11 @@ private theorem cot_theta_rhophi_eta (r p η : ℝ) :
     cos (spatial_theta.rhophi_eta r p η) / sin (spatial_theta.rhophi_eta r p η) = sinh η := by
   simp only [d_spatial_theta]; norm_num only; exact cot_two_arctan_exp η
 
-private theorem cot_theta_rhophi_z (r p z : ℝ) (hr : 0 < r) :
-    cos (spatial_theta.rhophi_z r p z) / sin (spatial_theta.rhophi_z r p z) = z / r := by
-  simp only [d_spatial_theta, d_spatial_costheta, d_spatial_mag, d_spatial_mag2, P.nanToNum_eq]
-  exact cot_arccos hr rfl
-
 /-! ### dot -/
 
-/-- extra hypothesis forced by the code (see `refine_spatial_dot_defect`): the variant `rhophi_eta_rhophi_z` converts
-the second operand's `z` to `θ = arccos(z/√(ρ²+z²))` and divides by `tan θ`, which loses `z` when `ρ₂ = 0` -/
-def DotOK : Az → Lon → Az → Lon → ℝ → Prop
-  | .rhophi, .eta, .rhophi, .z, r2 => 0 < r2
-  | _, _, _, _, _ => True
-
-/-- `dot` computes the Euclidean scalar product of the denotations, for all 36 keys; `_partial` because one key needs
-`DotOK` (a representable `ρ₂ = 0` operand breaks it), which the property text does not grant -/
-theorem refine_spatial_dot_partial (k0 : Az) (k1 : Lon) (k2 : Az) (k3 : Lon) (a0 a1 a2 a3 a4 a5 : ℝ)
-    (h1 : TanOK k1 a2) (h2 : TanOK k3 a5) (h3 : DotOK k0 k1 k2 k3 a3) :
+/-- `dot` computes the Euclidean scalar product of the denotations, for all 36 keys (only `TanOK` for θ keys) -/
+theorem refine_spatial_dot (k0 : Az) (k1 : Lon) (k2 : Az) (k3 : Lon) (a0 a1 a2 a3 a4 a5 : ℝ)
+    (h1 : TanOK k1 a2) (h2 : TanOK k3 a5) :
     spatial_dot.eval k0 k1 k2 k3 a0 a1 a2 a3 a4 a5 = dot3 (cart3 k0 k1 a0 a1 a2) (cart3 k2 k3 a3 a4 a5) := by
   have z1 := refine_spatial_z k0 k1 a0 a1 a2 h1
   have z2 := refine_spatial_z k2 k3 a3 a4 a5 h2
@@ -87,21 +60,8 @@ theorem refine_spatial_dot_partial (k0 : Az) (k1 : Lon) (k2 : Az) (k3 : Lon) (a0
     simp only [d_spatial_dot, conv_x_xy, conv_x_rhophi, conv_y_xy, conv_y_rhophi, z1, z2, dot3, cart3]
   all_goals simp only [inv_tan_mul, half_exp_sinh, cot_theta_rhophi_eta, xOf, yOf, zOf, rhoOf]
   all_goals try (rw [cos_sub]; ring1)
-  · simp only [DotOK] at h3
-    rw [cot_theta_rhophi_z _ _ _ h3, cos_sub]
-    have := ne_of_gt h3
-    field_simp
 
-/-- the unconditional statement FAILS for key `(rhophi, eta, rhophi, z)` at the representable operand `ρ₂ = 0`:
-the model value is `0` (floats: `nan` for `z₂ > 0`, `-0.0` for `z₂ < 0`), the scalar product is `ρ₁ sinh η₁ · z₂`. -/
-theorem refine_spatial_dot_defect :
-    spatial_dot.eval .rhophi .eta .rhophi .z 1 0 1 0 0 1
-      ≠ dot3 (cart3 .rhophi .eta 1 0 1) (cart3 .rhophi .z 0 0 1) := by
-  simp only [d_spatial_dot, dot3, cart3, xOf, yOf, zOf, rhoOf, mul_zero, zero_mul, mul_one, one_mul, zero_add]
-  exact (sinh_pos_iff.mpr one_pos).ne
-
-example : TanOK .theta 1 ∧ DotOK .rhophi .eta .rhophi .z 2 :=
-  ⟨ne_of_gt cos_one_pos, by norm_num [DotOK]⟩
+example : TanOK .theta 1 := ne_of_gt cos_one_pos
 
 /-! ### cross (declared result `[az xy, lon z, none]`) -/
 
